@@ -71,7 +71,11 @@ def evaluate(mod, pid, cases):
             try:
                 rec["oracle"] = list(mod.oracle(c, r))
             except Exception as e:  # noqa
-                rec["oracle"] = [("oracle-error", "oracle raised %r" % (e,))]
+                if isinstance(r, dict) and r.get("panic") and len(r) == 1:
+                    # the whole case panicked inside the implementation and the property's oracle has no reading of that
+                    rec["oracle"] = [("case-panic", "the implementation panicked on this input (operation %s)" % (c.get("k"),))]
+                else:
+                    rec["oracle"] = [("oracle-error", "oracle raised %r" % (e,))]
             try:
                 t = mod.coq_check(c, r)
             except Exception as e:  # noqa
